@@ -3,11 +3,13 @@ C04 — the mutation space is exactly the set of sequences the hard constraints 
 Proved so far: unsolvable iff the language is empty; the initial sequence lies in the space for every
 tape (C15.constrainSequence_spec); restriction soundness (EnforcedSound) for EnforceChoice / AvoidChanges.
 `mergeWith_exact`: the merge step (new restriction × contiguous underlying choices) yields exactly the
-compatible words.  The remaining pieces of `from_optimization_problem` (varying-region split and write-back
-invariant over the whole fold) are decided by the correspondence + the 4^L brute-force oracle: PARTIAL.
+compatible words; `extractVaryingRegion_exact`: the split into head / core / tail keeps the language and tiles the
+segment.  The remaining piece of `from_optimization_problem` (the write-back invariant over the whole fold of
+restrictions) is decided by the correspondence + the 4^L brute-force oracle: PARTIAL.
 -/
 import DnaModel.Model.Builtin
 import DnaModel.Proofs.Merge
+import DnaModel.Proofs.Split
 import DnaModel.Props.C15
 import DnaModel.Props.C10
 set_option linter.unusedVariables false
@@ -147,5 +149,15 @@ theorem mergeWith_exact (self : Choice) (first : Choice) (rest : List Choice)
 
 
 end MergeExact
+
+/-- **`extract_varying_region` keeps the language** (the step that splits a merged choice into a constant head, a
+    varying core and a constant tail before it is written back into the index): a word is accepted by the choice iff it
+    is accepted by every piece, and the pieces tile the choice's segment -/
+theorem extractVaryingRegion_exact (c : Choice) (t : Seq)
+    (hlen : ∀ v ∈ c.variants, v.length = c.stop - c.start) (hle : c.start ≤ c.stop) :
+    (c.seg t ∈ c.variants ↔ ∀ p ∈ c.extractVaryingRegion, p.seg t ∈ p.variants) ∧
+    Merge.Contig c.start c.extractVaryingRegion ∧ Merge.stopOf c.start c.extractVaryingRegion = c.stop ∧
+    ∀ p ∈ c.extractVaryingRegion, ∀ v ∈ p.variants, v.length = p.stop - p.start :=
+  ⟨Split.extractVaryingRegion_language c t hlen hle, Split.extractVaryingRegion_tiles c hlen hle⟩
 
 end Dna.C04
